@@ -159,30 +159,32 @@ Definition wf (s : state) := NoDup (keys (accts s)).
 Definition total (s : state) := asum (accts s).
 
 (* equal as far as the EVM and a dump can tell (existence included), journal aside *)
-Definition seq (s1 s2 : state) := aeq (accts s1) (accts s2) /\ logs s1 = logs s2 /\ refund s1 = refund s2.
+Definition seq (s1 s2 : state) :=
+  aeq (accts s1) (accts s2) /\ logs s1 = logs s2 /\ (refund s1 = refund s2 /\ graves s1 = graves s2).
 Definition jeq (s1 s2 : state) := seq s1 s2 /\ jrnl s1 = jrnl s2.
 
 (* the EIP-161 view: a missing account and a pristine empty one are the same *)
 Definition view (o : option account) : account := match o with Some x => x | None => fresh end.
 Definition veq (s1 s2 : state) :=
-  (forall a, view (alookup a (accts s1)) = view (alookup a (accts s2))) /\ logs s1 = logs s2 /\ refund s1 = refund s2.
+  (forall a, view (alookup a (accts s1)) = view (alookup a (accts s2))) /\ logs s1 = logs s2 /\
+  (refund s1 = refund s2 /\ graves s1 = graves s2).
 
 Ltac seq3 := split; [ | split ].
-Lemma seq_refl : forall s, seq s s. Proof. intro s. seq3; try reflexivity. intro a. reflexivity. Qed.
+Lemma seq_refl : forall s, seq s s. Proof. intro s. split; [intro a; reflexivity | split; [reflexivity | split; reflexivity]]. Qed.
 Lemma seq_sym : forall a b, seq a b -> seq b a.
-Proof. intros a b (H1 & H2 & H3). split; [|split; congruence]. intro x. symmetry. apply H1. Qed.
+Proof. intros a b (H1 & H2 & H3 & H4). split; [|split; [|split]; congruence]. intro x. symmetry. apply H1. Qed.
 Lemma seq_trans : forall a b c, seq a b -> seq b c -> seq a c.
-Proof. intros a b c (H1 & H2 & H3) (K1 & K2 & K3). split; [|split; congruence]. intro x. rewrite H1. apply K1. Qed.
+Proof. intros a b c (H1 & H2 & H3 & H4) (K1 & K2 & K3 & K4). split; [|split; [|split]; congruence]. intro x. rewrite H1. apply K1. Qed.
 Lemma jeq_refl : forall s, jeq s s. Proof. intro s. split; [apply seq_refl | reflexivity]. Qed.
 Lemma jeq_sym : forall a b, jeq a b -> jeq b a.
 Proof. intros a b [H1 H2]. split; [apply seq_sym; assumption | congruence]. Qed.
 Lemma jeq_trans : forall a b c, jeq a b -> jeq b c -> jeq a c.
 Proof. intros a b c [H1 H2] [K1 K2]. split; [eapply seq_trans; eassumption | congruence]. Qed.
-Lemma veq_refl : forall s, veq s s. Proof. intro s. seq3; reflexivity. Qed.
+Lemma veq_refl : forall s, veq s s. Proof. intro s. split; [intro a; reflexivity | split; [reflexivity | split; reflexivity]]. Qed.
 Lemma veq_sym : forall a b, veq a b -> veq b a.
-Proof. intros a b (H1 & H2 & H3). split; [|split; congruence]. intro x. symmetry. apply H1. Qed.
+Proof. intros a b (H1 & H2 & H3 & H4). split; [|split; [|split]; congruence]. intro x. symmetry. apply H1. Qed.
 Lemma veq_trans : forall a b c, veq a b -> veq b c -> veq a c.
-Proof. intros a b c (H1 & H2 & H3) (K1 & K2 & K3). split; [|split; congruence]. intro x. rewrite H1. apply K1. Qed.
+Proof. intros a b c (H1 & H2 & H3 & H4) (K1 & K2 & K3 & K4). split; [|split; [|split]; congruence]. intro x. rewrite H1. apply K1. Qed.
 Lemma seq_veq : forall a b, seq a b -> veq a b.
 Proof. intros a b (H1 & H2 & H3). split; [|split; assumption]. intro x. rewrite H1. reflexivity. Qed.
 
@@ -204,20 +206,24 @@ Qed.
 
 Lemma undo1_seq : forall e s1 s2, seq s1 s2 -> seq (undo1 e s1) (undo1 e s2).
 Proof.
-  intros e s1 s2 H. pose proof H as (H1 & H2 & H3).
+  intros e s1 s2 H. pose proof H as (H1 & H2 & H3 & H4).
   assert (forall a f, seq (match get_obj a s1 with Some x => set_obj a (f x) s1 | None => s1 end)
                           (match get_obj a s2 with Some x => set_obj a (f x) s2 | None => s2 end)) as F.
   { intros a f. rewrite (get_obj_jeq s1 s2 a H). destruct (get_obj a s2); [apply seq_set_obj; assumption | assumption]. }
+  assert (forall a, seq (with_accts (adel a (accts s1)) s1) (with_accts (adel a (accts s2)) s2)) as D.
+  { intro a. seq3; cbn; try assumption; [|split; assumption].
+    intro b. rewrite !alookup_adel. destruct (addr_eqb b a); [reflexivity | apply H1]. }
   destruct e; cbn [undo1].
-  - seq3; cbn; try assumption. intro b. rewrite !alookup_adel. destruct (addr_eqb b a); [reflexivity | apply H1].
+  - apply D.
   - apply seq_set_obj; assumption.
   - apply (F a (fun x => set_dead_f x prev prevbal)).
   - apply (F a (fun x => set_bal x prev)).
   - apply (F a (fun x => set_nonce_f x prev)).
   - apply (F a (fun x => set_stor_f x prev)).
+  - apply D.
   - apply (F a (fun x => set_code_f x prev)).
-  - seq3; cbn; try assumption. reflexivity.
-  - seq3; cbn; try assumption. congruence.
+  - seq3; cbn; try assumption. split; [reflexivity | assumption].
+  - seq3; cbn; try assumption; [congruence | split; assumption].
   - assumption.
 Qed.
 
@@ -277,7 +283,7 @@ Proof. intros s0 s s' H0 H. eapply ext_jeq_r; [eassumption | apply revert_restor
 
 (* one journal entry *)
 Lemma ext_one : forall s s' e,
-  jrnl s' = e :: jrnl s -> seq (undo1 e (mkSt (accts s') (logs s') (refund s') (jrnl s))) s -> ext s s'.
+  jrnl s' = e :: jrnl s -> seq (undo1 e (with_jrnl (jrnl s) s')) s -> ext s s'.
 Proof.
   intros s s' e Hj Hs. exists 1%nat. split; [rewrite Hj; reflexivity|].
   cbn [undo_n]. rewrite Hj. split; [assumption|]. rewrite undo1_jrnl. reflexivity.
@@ -295,7 +301,7 @@ Lemma wf_undo1 : forall e s, wf s -> wf (undo1 e s).
 Proof.
   intros e s H. destruct e; cbn [undo1];
     try (match goal with |- context [get_obj ?a s] => destruct (get_obj a s) end); try (apply wf_set_obj); try assumption.
-  unfold wf, with_accts. cbn [accts]. apply nodup_adel. assumption.
+  all: unfold wf, with_accts; cbn [accts]; apply nodup_adel; assumption.
 Qed.
 
 Lemma wf_undo_n : forall k s, wf s -> wf (undo_n k s).
@@ -309,8 +315,8 @@ Proof. intros. apply wf_undo_n. assumption. Qed.
 
 (* ---- the primitives: each extends the state, keeps wf, and moves the total as stated ---- *)
 
-Ltac st := unfold set_obj, with_accts, push_j, add_log, add_refund, sub_refund, get_obj; cbn [accts logs refund jrnl tl].
-Ltac seq_tac := seq3; st; try reflexivity.
+Ltac st := unfold set_obj, with_accts, with_jrnl, push_j, add_log, add_refund, sub_refund, get_obj; cbn [accts logs refund jrnl graves tl].
+Ltac seq_tac := seq3; st; try reflexivity; try (split; reflexivity).
 
 Lemma get_obj_set_obj : forall a x s b, get_obj b (set_obj a x s) = if addr_eqb b a then Some x else get_obj b s.
 Proof. intros. unfold get_obj, set_obj. cbn. apply alookup_aset. Qed.
@@ -319,36 +325,54 @@ Lemma get_obj_push_j : forall e s b, get_obj b (push_j e s) = get_obj b s.
 Proof. reflexivity. Qed.
 
 Lemma ext_push_touch : forall a s, ext s (push_j (JTouch a) s).
-Proof. intros. eapply ext_one; [reflexivity|]. cbn [undo1]. seq_tac. intro b. reflexivity. Qed.
+Proof. intros. eapply ext_one; [reflexivity|]. cbn [undo1]. seq_tac. Qed.
+
+Lemma ext_new_obj : forall a x e s, get_obj a s = None -> (e = JCreate a \/ e = JResetDel a) ->
+  ext s (set_obj a x (push_j e s)).
+Proof.
+  intros a x e s E He. eapply ext_one; [reflexivity|].
+  assert (undo1 e (with_jrnl (jrnl s) (set_obj a x (push_j e s))) = with_accts (adel a (aset a x (accts s))) s) as U
+    by (destruct He; subst e; reflexivity).
+  rewrite U. seq_tac. intro b.
+  rewrite alookup_adel. destruct (addr_eqb b a) eqn:Eb.
+  - apply addr_eqb_eq in Eb. subst. symmetry. exact E.
+  - rewrite alookup_aset, Eb. reflexivity.
+Qed.
+
+Lemma ext_reset_obj : forall a x prev s, get_obj a s = Some prev -> ext s (set_obj a x (push_j (JReset a prev) s)).
+Proof.
+  intros a x prev s E. eapply ext_one; [reflexivity|]. cbn [undo1]. seq_tac. intro b.
+  rewrite !alookup_aset. destruct (addr_eqb b a) eqn:Eb; [|reflexivity].
+  apply addr_eqb_eq in Eb. subst. symmetry. exact E.
+Qed.
 
 Lemma ext_create_object : forall a s, ext s (create_object a s).
 Proof.
   intros a s. unfold create_object. destruct (get_obj a s) as [prev|] eqn:E.
-  - eapply ext_one; [reflexivity|]. cbn [undo1]. seq_tac. intro b.
-    rewrite !alookup_aset. destruct (addr_eqb b a) eqn:Eb; [|reflexivity].
-    apply addr_eqb_eq in Eb. subst. symmetry. exact E.
-  - eapply ext_one; [reflexivity|]. cbn [undo1]. seq_tac. intro b.
-    rewrite alookup_adel. destruct (addr_eqb b a) eqn:Eb.
-    + apply addr_eqb_eq in Eb. subst. symmetry. exact E.
-    + rewrite alookup_aset, Eb. reflexivity.
+  - apply ext_reset_obj. exact E.
+  - destruct (alookup a (graves s)); apply ext_new_obj; auto.
 Qed.
 
-Lemma ext_create_account : forall a s, ext s (create_account a s).
+Lemma ext_create_account : forall rz a s, ext s (create_account rz a s).
 Proof.
-  intros a s. unfold create_account. destruct (get_obj a s) as [prev|] eqn:E.
-  - eapply ext_one; [reflexivity|]. cbn [undo1]. seq_tac. intro b.
-    rewrite !alookup_aset. destruct (addr_eqb b a) eqn:Eb; [|reflexivity].
-    apply addr_eqb_eq in Eb. subst. symmetry. exact E.
-  - apply ext_create_object.
+  intros rz a s. unfold create_account. destruct (get_obj a s) as [prev|] eqn:E.
+  - apply ext_reset_obj. exact E.
+  - destruct (alookup a (graves s)); [destruct rz|]; try apply ext_create_object. apply ext_new_obj; auto.
 Qed.
 
 Lemma ext_get_or_new : forall a s, ext s (get_or_new a s).
 Proof. intros. unfold get_or_new. destruct (get_obj a s); [apply ext_refl | apply ext_create_object]. Qed.
 
+Lemma create_object_new : forall a s, get_obj a s = None ->
+  exists e, create_object a s = set_obj a fresh (push_j e s) /\ (e = JCreate a \/ e = JResetDel a).
+Proof.
+  intros a s E. unfold create_object. rewrite E. destruct (alookup a (graves s)); eauto.
+Qed.
+
 Lemma get_or_new_some : forall a s, exists x, get_obj a (get_or_new a s) = Some x.
 Proof.
   intros. unfold get_or_new. destruct (get_obj a s) eqn:E; [eauto|].
-  unfold create_object. rewrite E. rewrite get_obj_set_obj, addr_eqb_refl. eauto.
+  destruct (create_object_new a s E) as (e & He & _). rewrite He, get_obj_set_obj, addr_eqb_refl. eauto.
 Qed.
 
 (* a field update of an existing object, journaled with the old field *)
@@ -358,8 +382,7 @@ Lemma ext_field : forall a s x e f,
   ext s (set_obj a (f x) (push_j e s)).
 Proof.
   intros a s x e f E H. eapply ext_one; [reflexivity|].
-  change (mkSt (accts (set_obj a (f x) (push_j e s))) (logs (set_obj a (f x) (push_j e s)))
-               (refund (set_obj a (f x) (push_j e s))) (jrnl s)) with (set_obj a (f x) s).
+  change (with_jrnl (jrnl s) (set_obj a (f x) (push_j e s))) with (set_obj a (f x) s).
   rewrite (H (f x)) by (rewrite get_obj_set_obj, addr_eqb_refl; reflexivity).
   seq_tac. intro b. rewrite !alookup_aset. destruct (addr_eqb b a) eqn:Eb; [|reflexivity].
   apply addr_eqb_eq in Eb. subst. symmetry. exact E.
@@ -417,8 +440,8 @@ Lemma ext_set_state : forall a k v s, ext s (set_state a k v s).
 Proof.
   intros a k v s. unfold set_state. destruct (get_or_new_some a s) as [x Hx].
   eapply ext_trans; [apply ext_get_or_new|]. rewrite (obj_of_some _ _ _ Hx).
-  destruct (N.eqb (sget k (a_stor x)) v); [apply ext_refl|].
-  apply (ext_field a _ x (JStorage a (a_stor x)) (fun x => set_stor_f x (sset k v (a_stor x))) Hx).
+  destruct (N.eqb (o_state x k) v); [apply ext_refl|].
+  apply (ext_field a _ x (JStorage a (a_dirty x)) (fun y => set_stor_f y (sset k v (a_dirty x))) Hx).
   intros y Hy. cbn [undo1]. rewrite get_obj_set_obj, addr_eqb_refl.
   rewrite get_obj_set_obj, addr_eqb_refl in Hy. inversion Hy; subst. destruct x; reflexivity.
 Qed.
@@ -432,18 +455,21 @@ Proof.
 Qed.
 
 Lemma ext_add_log : forall l s, ext s (add_log l s).
-Proof. intros. eapply ext_one; [reflexivity|]. cbn [undo1]. seq_tac. intro b. reflexivity. Qed.
+Proof. intros. eapply ext_one; [reflexivity|]. cbn [undo1]. seq_tac. Qed.
 Lemma ext_add_refund : forall g s, ext s (add_refund g s).
-Proof. intros. eapply ext_one; [reflexivity|]. cbn [undo1]. seq_tac. intro b. reflexivity. Qed.
+Proof. intros. eapply ext_one; [reflexivity|]. cbn [undo1]. seq_tac. Qed.
 Lemma ext_sub_refund : forall g s, ext s (sub_refund g s).
-Proof. intros. eapply ext_one; [reflexivity|]. cbn [undo1]. seq_tac. intro b. reflexivity. Qed.
+Proof. intros. eapply ext_one; [reflexivity|]. cbn [undo1]. seq_tac. Qed.
 
 (* wf *)
 Lemma wf_push_j : forall e s, wf s -> wf (push_j e s). Proof. intros. exact H. Qed.
 Lemma wf_create_object : forall a s, wf s -> wf (create_object a s).
-Proof. intros. unfold create_object. destruct (get_obj a s); apply wf_set_obj; assumption. Qed.
-Lemma wf_create_account : forall a s, wf s -> wf (create_account a s).
-Proof. intros. unfold create_account. destruct (get_obj a s); [apply wf_set_obj; assumption | apply wf_create_object; assumption]. Qed.
+Proof. intros. unfold create_object. destruct (get_obj a s); [|destruct (alookup a (graves s))]; apply wf_set_obj; assumption. Qed.
+Lemma wf_create_account : forall rz a s, wf s -> wf (create_account rz a s).
+Proof.
+  intros. unfold create_account. destruct (get_obj a s); [apply wf_set_obj; assumption|].
+  destruct (alookup a (graves s)); [destruct rz|]; try (apply wf_create_object; assumption). apply wf_set_obj; assumption.
+Qed.
 Lemma wf_get_or_new : forall a s, wf s -> wf (get_or_new a s).
 Proof. intros. unfold get_or_new. destruct (get_obj a s); [assumption | apply wf_create_object; assumption]. Qed.
 Lemma wf_set_balance : forall a b s, wf s -> wf (set_balance a b s).
